@@ -40,6 +40,16 @@ pub const ORIGINS: &[&str] = &[
     "http://B.test/",
 ];
 
+/// URI for an origin index: the fixed table first, then arbitrarily many synthetic origins that also
+/// differ in port and scheme.
+pub fn origin_uri(idx: usize) -> String {
+    if idx < ORIGINS.len() {
+        ORIGINS[idx].to_string()
+    } else {
+        format!("{}://h{}.test:{}/", if idx % 7 == 0 { "https" } else { "http" }, idx / 2, 8000 + idx % 2)
+    }
+}
+
 /// Normalised pool-relevant origin: (scheme, authority) lower-cased.
 pub fn origin_key(uri: &http::Uri) -> String {
     format!(
@@ -148,6 +158,7 @@ impl Wake for Flag {
 #[derive(Debug)]
 pub struct ReqT {
     pub okey: String,
+    pub origin_idx: usize,
     pub h2: bool,
     pub status: RStatus,
     pub issue_step: usize,
@@ -168,6 +179,9 @@ pub struct ReqT {
     /// at issue the pool certainly had nothing for this origin and no attempt to wait for: the
     /// request certainly carries a connector of its own
     pub has_connector_for_sure: bool,
+    /// at issue an idle connection was certainly available: the request took it and is not
+    /// registered as a waiter while unpolled
+    pub popped_for_sure: bool,
 }
 
 /// C14(a) obligation: connection `conn` entered the pool while the requests `waiting` were
@@ -236,7 +250,7 @@ impl World {
             }
             match r.status {
                 RStatus::Polling => def.push(i),
-                RStatus::Unpolled => maybe.push(i),
+                RStatus::Unpolled if !r.popped_for_sure => maybe.push(i),
                 _ => {}
             }
         }
@@ -913,6 +927,10 @@ pub enum Op {
     Warm { origin: u8, h2: bool },
     /// composite: issue a request and drive it until it holds a connection (no release)
     Hold { origin: u8, h2: bool },
+    /// composite: one complete HTTP/1 exchange with each of `n` further distinct origins (indices 6..6+n)
+    Sweep { n: u16 },
+    /// issue a request to an arbitrary origin index (many-origins leg)
+    IssueAt { origin: u16, h2: bool },
     /// real-time sleep (idle expiry variant only)
     Sleep(u16),
     /// virtual time advance (timeouts)
@@ -975,7 +993,7 @@ impl Sim {
 
     pub fn issue(&mut self, origin: usize, h2: bool, probe: bool) -> usize {
         use tower::Service;
-        let uri: http::Uri = ORIGINS[origin % ORIGINS.len()].parse().unwrap();
+        let uri: http::Uri = origin_uri(origin).parse().unwrap();
         let okey = origin_key(&uri);
         let id = self.slots.len();
         let st;
@@ -1028,6 +1046,8 @@ impl Sim {
             if w.conns.iter().any(|c| c.okey == okey && c.close_step.is_some() && (c.ever_pooled || c.handoffs > 0) && c.handles >= 1 && c.holders.is_empty()) {
                 w.classes.insert("issue-after-pooled-close");
             }
+            // (a shared handle is only certainly in the idle list when the limit cannot have dropped it)
+            let popped_for_sure = w.idle_lb(&okey) >= 1 || (w.cfg.max_idle >= 16 && w.shareable_available(&okey).is_some());
             let deadline_ms = self.cfg.req_timeout_ms.filter(|_| !probe).map(|d| w.now_ms + d);
             let has_connector_for_sure = {
                 let possibly_idle = w.conns.iter().any(|c| {
@@ -1049,6 +1069,7 @@ impl Sim {
             };
             w.reqs.push(ReqT {
                 okey: okey.clone(),
+                origin_idx: origin,
                 h2,
                 status: RStatus::Unpolled,
                 issue_step: st,
@@ -1066,8 +1087,9 @@ impl Sim {
                 deadline_ms,
                 issue_instant: std::time::Instant::now(),
                 has_connector_for_sure,
+                popped_for_sure,
             });
-            w.log(|| format!("issue req#{id} {} h2={h2} must_not_dial={must_not_dial:?}", ORIGINS[origin % ORIGINS.len()]));
+            w.log(|| format!("issue req#{id} {} h2={h2} must_not_dial={must_not_dial:?}", origin_uri(origin)));
         }
         let req = http::Request::builder()
             .uri(uri)
@@ -1555,6 +1577,20 @@ impl Sim {
                     true
                 }
             }
+            Op::Sweep { n } => {
+                for i in 0..*n as usize {
+                    self.warm_unbounded(ORIGINS.len() + i, false).await;
+                }
+                true
+            }
+            Op::IssueAt { origin, h2 } => {
+                if self.live().len() >= 16 {
+                    false
+                } else {
+                    self.issue(*origin as usize, *h2, false);
+                    true
+                }
+            }
             Op::Sleep(ms) => {
                 std::thread::sleep(Duration::from_millis(*ms as u64));
                 true
@@ -1603,6 +1639,10 @@ impl Sim {
         self.next_step();
         self.poll(id);
         id
+    }
+
+    pub async fn warm_unbounded(&mut self, origin: usize, h2: bool) {
+        self.warm(origin, h2).await
     }
 
     /// Composite operation: a complete request/response exchange for a fresh request.
@@ -2001,9 +2041,8 @@ pub fn run_pool_case(case: &PoolCase, logging: bool, phases: Phases) -> RunOut {
                         let mut seen = BTreeSet::new();
                         let mut v = vec![];
                         for r in w.reqs.iter() {
-                            if seen.insert(r.okey.clone()) {
-                                let o = ORIGINS.iter().position(|u| origin_key(&u.parse().unwrap()) == r.okey).unwrap();
-                                v.push((o, r.h2));
+                            if seen.insert(r.okey.clone()) && v.len() < 12 {
+                                v.push((r.origin_idx, r.h2));
                             }
                         }
                         v
@@ -2146,6 +2185,79 @@ pub fn cfg_expiry_strategy() -> impl Strategy<Value = PoolCfg> {
         cont,
         req_timeout_ms: None,
     })
+}
+
+/// Structured histories for the idle-expiry leg: k concurrent HTTP/1 requests to one origin are driven
+/// until they hold connections, then released/handed back in a generated order with real-time sleeps in
+/// between (so the idle list holds connections of different ages), optionally one idle connection is
+/// closed by the peer, then new requests are issued.
+pub fn expiry_scenario_strategy() -> impl Strategy<Value = PoolCase> {
+    (
+        1usize..4,
+        proptest::collection::vec((any::<u16>(), prop_oneof![Just(0u16), Just(60u16)]), 3),
+        prop_oneof![2 => Just(None), 3 => any::<u16>().prop_map(Some)],
+        prop_oneof![Just(0u16), Just(10u16), Just(60u16)],
+        1usize..4,
+        prop_oneof![4 => Just(Some(25u64)), 1 => Just(Some(0u64)), 1 => Just(None)],
+        any::<bool>(),
+    )
+        .prop_map(|(k, rel, close, last_sleep, probes, timeout, cont)| {
+            let mut ops = vec![];
+            for _ in 0..k {
+                ops.push(Op::Hold { origin: 0, h2: false });
+            }
+            for (i, (which, sleep)) in rel.iter().enumerate().take(k) {
+                ops.push(Op::Release(*which));
+                // poll every live request so that the released one lets go of its connection
+                for j in 0..k {
+                    ops.push(Op::Poll(((j * 65536) / k) as u16 + 1));
+                }
+                ops.push(Op::ConnReady(0));
+                ops.push(Op::Bg);
+                if *sleep > 0 && i + 1 < k {
+                    ops.push(Op::Sleep(*sleep));
+                }
+            }
+            if let Some(c) = close {
+                ops.push(Op::ConnClose(c));
+            }
+            if last_sleep > 0 {
+                ops.push(Op::Sleep(last_sleep));
+            }
+            for _ in 0..probes {
+                ops.push(Op::Issue { origin: 0, h2: false });
+            }
+            for j in 0..probes {
+                ops.push(Op::Poll(((j * 65536) / probes) as u16 + 1));
+            }
+            PoolCase { cfg: PoolCfg { idle_timeout_ms: timeout, max_idle: 32, cont, req_timeout_ms: None }, ops }
+        })
+}
+
+/// Histories over hundreds of distinct origins: a sweep leaves one pooled connection per origin, then
+/// requests go to arbitrary origins (early ones included) interleaved with the usual operations.
+pub fn many_origins_strategy(max_ops: usize) -> impl Strategy<Value = PoolCase> {
+    (
+        prop_oneof![Just(40u16), Just(260u16), Just(300u16), Just(700u16)],
+        proptest::collection::vec(
+            prop_oneof![
+                6 => (prop_oneof![3 => 0u16..20, 2 => 0u16..720], any::<bool>()).prop_map(|(origin, h2)| Op::IssueAt { origin, h2: h2 && origin % 3 == 0 }),
+                8 => any::<u16>().prop_map(Op::Poll),
+                3 => any::<u16>().prop_map(Op::DialOk),
+                3 => (any::<u16>(), Just(false)).prop_map(|(i, a)| Op::HsOk(i, a)),
+                3 => any::<u16>().prop_map(Op::Release),
+                3 => any::<u16>().prop_map(Op::ConnReady),
+                1 => any::<u16>().prop_map(Op::Cancel),
+                3 => Just(Op::Bg),
+            ],
+            0..max_ops,
+        ),
+        any::<bool>(),
+    )
+        .prop_map(|(n, mut ops, cont)| {
+            ops.insert(0, Op::Sweep { n });
+            PoolCase { cfg: PoolCfg { idle_timeout_ms: None, max_idle: 32, cont, req_timeout_ms: None }, ops }
+        })
 }
 
 pub fn cfg_any_strategy() -> impl Strategy<Value = PoolCfg> {
